@@ -199,6 +199,22 @@ def _remap(run, P, f, defs, isel):
         run.incomplete("F-TABLE/subgrid-remap", c0, where(f), "loop over the grid's variables not found")
         return
     var = loop.target.id
+    # iteration domain: a loop over .data_vars never sees variables that are stored as (index) coordinates.  A bare 1-D array
+    # assigned as  _ds["name"] = <ndarray>  becomes a dimension coordinate named after itself (xarray semantics).
+    if "data_vars" in norm(loop.iter):
+        for g in P.all_functions():
+            if not g.module.relpath.startswith("uxarray/grid/"):
+                continue
+            for st2 in iter_stmts(g.node.body):
+                if isinstance(st2, ast.Assign) and isinstance(st2.targets[0], ast.Subscript) and isinstance(st2.targets[0].value, ast.Attribute) and st2.targets[0].value.attr == "_ds":
+                    key = str_const(st2.targets[0].slice)
+                    if key in ("hole_edge_indices",) or (key or "").startswith("subgrid_"):
+                        v = st2.value
+                        bare = not (isinstance(v, ast.Call) and (dotted(v.func) or [""])[-1] == "DataArray")
+                        if bare:
+                            run.violation("F-TABLE/subgrid-remap", f"{f.key}:loop-domain[{key}]", where(f, loop),
+                                          f"the routing loop visits {norm(loop.iter)} only, but {key} is stored as a bare array at {where(g, st2)} and therefore becomes an index COORDINATE, not a data variable: "
+                                          "it is never remapped or dropped and subsets keep the source grid's numbering")
     # branches: list of (test, kind) with kind in remap|drop
     branches = []
 
